@@ -27,7 +27,7 @@ from pyvc.contracts import FnContract
 from pyvc.ops import Unsupported
 from pyvc.state import HeapObj
 from pyvc.symex import Executor
-from pyvc.values import NONE, VBool, VExt, VInt, VNoneT, VRef, VStr, VUnk, fresh_name
+from pyvc.values import NONE, VBool, VExt, VInt, VMod, VNoneT, VRef, VSeq, VStr, VTuple, VUnk, fresh_name
 from pyvc.verify import Maker
 
 HTML = "sharepoint2text/parsing/extractors/html_extractor.py"
@@ -122,9 +122,37 @@ def tag_field(rel, cls, repo=None):
     return c[0] if len(c) == 1 else None
 
 
+def roles(rel, cls, repo=None):
+    """Which field of the real class plays which role of the representation, found from the real __init__ (so that renaming a
+    field re-verifies): depth = the int counter (named skip_depth, else the only int field with skip/depth in its name);
+    tag = the only field with `tag` in its name (may be absent); for the tree builder root = the dict literal with a
+    `children` entry, stack = the list literal `[self.<root>]`, last = the None-initialised node field.
+    A role that cannot be found makes the function OUT-OF-SUBSET (`unknown`; the native replayer decides), never refuted."""
+    fs = init_fields(rel, cls, repo)
+    ints = [f for f, _a, v in fs if isinstance(v, ast.Constant) and type(v.value) is int]
+    cand = [f for f in ints if f == "skip_depth"] or [f for f in ints if "skip" in f.lower() or "depth" in f.lower()]
+    out = {"depth": cand[0] if len(cand) == 1 else None, "tag": tag_field(rel, cls, repo)}
+    root = [f for f, _a, v in fs if isinstance(v, ast.Dict) and any(isinstance(k, ast.Constant) and k.value == "children" for k in v.keys)]
+    out["root"] = root[0] if len(root) == 1 else None
+    stack = [f for f, _a, v in fs if isinstance(v, ast.List) and len(v.elts) == 1 and ast.unparse(v.elts[0]) == f"self.{out['root']}"]
+    out["stack"] = stack[0] if len(stack) == 1 else None
+    last = [f for f, a, v in fs if isinstance(v, ast.Constant) and v.value is None and f != out["tag"]
+            and ("Dict" in a or "dict" in a or "closed" in f.lower() or "last" in f.lower())]
+    out["last"] = last[0] if len(last) == 1 else None
+    return out
+
+
+def need(rel, cls, repo, *names):
+    r = roles(rel, cls, repo)
+    missing = [n for n in names if r.get(n) is None]
+    if missing:
+        raise Unsupported(f"representation of {cls} not recognised: no field for role(s) {missing}")
+    return r
+
+
 def skip_fields(rel, cls, repo=None):
-    tf = tag_field(rel, cls, repo)
-    return {"skip_depth"} | ({tf} if tf else set())
+    r = need(rel, cls, repo, "depth")
+    return {r["depth"]} | ({r["tag"]} if r["tag"] else set())
 
 
 # ---------------------------------------------------------------- heap model --
@@ -175,12 +203,13 @@ def html_self():
         stack, sl = mk_olist(ex, st, name + ".stack", "node", root=root.ref)
         other, c1 = mk_node(ex, st, name + ".last_closed")
         per_field = []
+        r = need(HTML, HCLS, ex.module.repo, "depth", "root", "stack", "last")
         for f, ann, val in init_fields(HTML, HCLS, ex.module.repo):
-            if f == "root":
+            if f == r["root"]:
                 per_field.append((f, [(c0, root)]))
-            elif f == "stack":
+            elif f == r["stack"]:
                 per_field.append((f, [(z3.And(sl >= 1), stack)]))
-            elif f == "last_closed":
+            elif f == r["last"]:
                 # None | a node other than the root | the root itself (aliasing made explicit)
                 per_field.append((f, [(None, NONE), (c1, other), (None, root)]))
             else:
@@ -220,6 +249,129 @@ class C17Executor(Executor):
             if o is not None and o.kind == "olist":
                 return o
         return None
+
+    def seq_view(self, st, it):
+        """The attribute list of a start tag: a sequence of (name, value-or-None) pairs of unknown length (a loop over it is
+        cut like any symbolic loop: whatever the body assigns / stores into is havocked)."""
+        if isinstance(it, VExt) and it.sort == "AttrList":
+            n = z3.Int(fresh_name("nattrs"))
+            st.assume(n >= 0)
+            return n, (lambda i: VTuple([VStr(z3.String(fresh_name("attr_name"))), VUnk("attr_value")]))
+        return super().seq_view(st, it)
+
+    def resolve_dotted(self, dotted):
+        """`from pkg import module [as alias]` / `import pkg.module`: a repository MODULE is a module value (attribute access
+        then resolves its functions / classes), whatever the import style."""
+        import os
+        parts = dotted.split(".")
+        if parts[0] == "sharepoint2text" and dotted not in self.reg.ext_models and dotted not in self.reg.fn:
+            rel = "/".join(parts)
+            if os.path.exists(os.path.join(self.module.repo, rel + ".py")) or os.path.exists(os.path.join(self.module.repo, rel, "__init__.py")):
+                return VMod(dotted)
+        return super().resolve_dotted(dotted)
+
+    # ---- round 3: what the container / parser glue functions need (contracts/C17_glue.py) ----
+    def get_slice(self, st, base, sl, node):
+        if isinstance(base, VExt) and base.sort == "Bytes" and sl.step is None:
+            from contracts import C17_glue as G
+            lo = self.ev(sl.lower, st)[0][1] if sl.lower is not None else None
+            if sl.upper is None and isinstance(lo, VInt) and lo.const() is not None:
+                return [(st, VExt("Bytes", G.BCUT(base.t, z3.IntVal(lo.const()))))]
+            return [(st, VExt("Bytes"))]          # some other part of the bytes: not the document any more
+        return super().get_slice(st, base, sl, node)
+
+    def _pure_comprehension(self, n):
+        """Element / conditions only read the loop variables and call methods on them (str methods in the code at hand):
+        evaluating it over an unknown iterable yields an unknown value and touches nothing that is tracked."""
+        targets = {x.id for g in n.generators for x in ast.walk(g.target) if isinstance(x, ast.Name)}
+        parts = [getattr(n, "elt", None), getattr(n, "key", None), getattr(n, "value", None)] + [c for g in n.generators for c in g.ifs]
+        for p_ in parts:
+            if p_ is None:
+                continue
+            for x in ast.walk(p_):
+                if isinstance(x, (ast.NamedExpr, ast.Yield, ast.YieldFrom, ast.Await, ast.Lambda)):
+                    return False
+                if isinstance(x, ast.Call):
+                    r = x.func
+                    while isinstance(r, (ast.Attribute, ast.Subscript, ast.Call)):
+                        r = r.value if not isinstance(r, ast.Call) else r.func
+                    if not (isinstance(r, ast.Name) and r.id in targets and isinstance(x.func, ast.Attribute)):
+                        return False
+                if isinstance(x, ast.Name) and isinstance(x.ctx, ast.Load) and x.id not in targets:
+                    return False
+        return True
+
+    def _opaque_comp(self, n, st):
+        if len(n.generators) == 1 and self._pure_comprehension(n):
+            r = self.ev(n.generators[0].iter, st)
+            attrs = len(r) == 1 and isinstance(r[0][1], VExt) and r[0][1].sort == "AttrList"
+            if len(r) == 1 and self.concrete_items(r[0][0], r[0][1]) is None and \
+                    (isinstance(r[0][1], VUnk) or attrs or self._ol(r[0][0], r[0][1]) is not None):
+                if not attrs or any(isinstance(x, ast.Call) for x in ast.walk(n)):
+                    self.exc_any(r[0][0].fork(), f"{self.loc(n)} comprehension over an unknown iterable")
+                return [(r[0][0], VUnk("attr-pairs" if attrs else "comprehension"))]
+        return None
+
+    def construct(self, st, t, args, kwargs, node):
+        if t.name == "dict" and len(args) == 1 and not kwargs and \
+                ((isinstance(args[0], VUnk) and args[0].tag == "attr-pairs") or (isinstance(args[0], VExt) and args[0].sort in ("AttrList", "AttrDict"))):
+            return [(st, VExt("AttrDict"))]        # dict(<(name, value) pairs of the attribute list>): cannot raise
+        return super().construct(st, t, args, kwargs, node)
+
+    def call(self, st, f, args, kwargs, node):
+        from pyvc.values import VFunc
+        if isinstance(f, VFunc) and f.how == "repo" and f.a == self.module.rel and args and not kwargs \
+                and all(isinstance(a, VExt) and a.sort == "Tree" for a in args) and self.reg.get(f"{f.a}::{f.b}") is None:
+            # a module-level helper applied to the parser's tree only (e.g. a fallback renderer): summarised as an unknown
+            # function OF THE TREE -- whatever it returns cannot depend on the markup except through the parser
+            from contracts import C17_glue as G
+            fn = z3.Function("fn_of_tree:" + f.b, *([G.TreeS] * len(args) + [S]))
+            self.exc_any(st.fork(), f"{self.loc(node)} {f.b}(tree)")
+            return [(st, VStr(fn(*[a.t for a in args])))]
+        return super().call(st, f, args, kwargs, node)
+
+    def e_GeneratorExp(self, n, st):
+        return self._opaque_comp(n, st) or super().e_GeneratorExp(n, st)
+
+    def e_ListComp(self, n, st):
+        return self._opaque_comp(n, st) or super().e_ListComp(n, st)
+
+    def on_yield(self, st, v, node):
+        """A yield inside a loop that is cut by an invariant is invisible in the function's final state: the contract's
+        per-yield clause (`yield_check`, pack-local) is therefore emitted as a VC at the yield itself."""
+        st.ghost["yields"] = st.ghost.get("yields", ()) + (v,)
+        chk = getattr(self.contract, "yield_check", None) if self.contract is not None else None
+        if chk is not None:
+            label, fn = chk
+            self.add_vc("yield", label, st.pc, fn(self, st, v), loc=self.loc(node))
+
+    def e_YieldFrom(self, n, st):
+        out = []
+        for (s, v) in self.ev(n.value, st):
+            items = self.concrete_items(s, v)
+            if items is not None:
+                s.yielded = s.yielded + items          # (an inlined local generator: each yield was seen by on_yield)
+            else:
+                s.ghost["yield_count_unknown"] = True
+                if isinstance(v, VSeq):
+                    self.on_yield(s, v.elem(z3.Int(fresh_name("k"))), n)     # an arbitrary element of the delegated sequence
+                elif not (isinstance(v, VUnk) and v.tag == "generator"):
+                    self.on_yield(s, VUnk("yield-from"), n)
+            out.append((s, NONE))
+        return out
+
+    def get_attr(self, st, base, attr, node):
+        if isinstance(base, VExt) and base.sort == "MsgObj" and attr == "body":
+            from contracts import C17_glue as G
+            return G.msg_body(self, st, base)
+        return super().get_attr(st, base, attr, node)
+
+    def havoc_call(self, st, what, args, node):
+        for a in args:
+            if isinstance(a, VExt) and a.sort == "Parser":
+                from contracts import C17_glue as G
+                G.log(st, "other", a, f"passed to {what} at {self.loc(node)}")
+        return super().havoc_call(st, what, args, node)
 
     def b_super(self, st, args, kwargs, node):
         return [(st, VExt("HTMLParserBase"))]
@@ -350,6 +502,8 @@ STR_HAS = z3.Function("str_contains", S, S, z3.BoolSort())
 STR_STARTS = z3.Function("str_startswith", S, S, z3.BoolSort())
 EXECUTOR = C17Executor
 EXECUTOR_KW = {f"{MSG}::_looks_like_html": {"opaque_str": True}}
+from contracts import C17_glue as _G  # noqa: E402
+EXECUTOR_KW.update({t: dict(_G.GLUE_KW) for t in _G.TARGETS})
 
 
 def m_lower(ex, st, args, kwargs, node):
@@ -462,11 +616,12 @@ def reach(c, st=None):
     from the class invariant) survives iff no pre-state children list lost members."""
     st = st or c.st
     d = st.obj(c.args["self"].ref).data
-    root = d.get("root")
+    rname = need(HTML, HCLS, c.ex.module.repo, "root")["root"]
+    root = d.get(rname)
     if not isinstance(root, VRef):
         return None
     pre = pre_heap(c)
-    e_root = c.entry.obj(c.args["self"].ref).data.get("root")
+    e_root = c.entry.obj(c.args["self"].ref).data.get(rname)
     if e_root is not None and not same_val(e_root, root):
         return None
     for ref, o in pre.items():
@@ -512,9 +667,10 @@ def html_inv(c, rho, st=None):
     st = st or c.st
     d = st.obj(c.args["self"].ref).data
     F = z3.BoolVal(False)
-    if not {"root", "stack", "skip_depth", "last_closed"} <= set(d):
-        return F
-    root, stack, sd, lc = d["root"], d["stack"], d["skip_depth"], d["last_closed"]
+    r = need(HTML, HCLS, c.ex.module.repo, "depth", "root", "stack", "last")
+    if not {r["root"], r["stack"], r["depth"], r["last"]} <= set(d):
+        return F                        # __init__ (or the handler) lost a field of the representation
+    root, stack, sd, lc = d[r["root"]], d[r["stack"]], d[r["depth"]], d[r["last"]]
     if not is_node(st, root) or not isinstance(stack, VRef) or not isinstance(sd, VInt):
         return F
     R = reach(c, st)
@@ -538,7 +694,7 @@ def html_inv(c, rho, st=None):
             return F
     if not isinstance(lc, VNoneT) and not (is_node(st, lc) and lc.ref in R):
         return F
-    tf = tag_field(HTML, HCLS, c.ex.module.repo)
+    tf = r["tag"]
     goals.append(coupling(sd.t, d.get(tf, MISSING) if tf else MISSING, rho))
     return z3.And(goals)
 
@@ -546,26 +702,30 @@ def html_inv(c, rho, st=None):
 def epub_inv(c, rho, st=None):
     st = st or c.st
     d = st.obj(c.args["self"].ref).data
-    sd = d.get("skip_depth")
+    r = need(EPUB, ECLS, c.ex.module.repo, "depth")
+    sd = d.get(r["depth"])
     if not isinstance(sd, VInt):
         return z3.BoolVal(False)
-    tf = tag_field(EPUB, ECLS, c.ex.module.repo)
+    tf = r["tag"]
     return coupling(sd.t, d.get(tf, MISSING) if tf else MISSING, rho)
 
 
 def html_requires(c):
     d = c.st.obj(c.args["self"].ref).data
-    r0 = frozenset(v.ref for v in (d["root"], d["last_closed"]) if isinstance(v, VRef))
+    r = need(HTML, HCLS, c.ex.module.repo, "depth", "root", "stack", "last")
+    r0 = frozenset(v.ref for v in (d[r["root"]], d[r["last"]]) if isinstance(v, VRef))
     c.st.ghost["reach0"] = r0
     c.entry.ghost["reach0"] = r0
-    tf = tag_field(HTML, HCLS, c.ex.module.repo)
-    return coupling(d["skip_depth"].t, d.get(tf, MISSING) if tf else MISSING, RHO)
+    tf = r["tag"]
+    return coupling(d[r["depth"]].t, d.get(tf, MISSING) if tf else MISSING, RHO)
 
 
 def html_data_stored(c):
     """rho = None: the datum is appended to the text or the tail of exactly one node reachable from root."""
     ch = changes(c, skip_fields(HTML, HCLS, c.ex.module.repo))
     R = reach(c)
+    if R is not None and len(ch) == 0:
+        return c.args["data"].t == z3.StringVal("")        # nothing stored is right for the empty datum only
     if R is None or len(ch) != 1:
         return z3.BoolVal(False)
     ref, k, a, b = ch[0]
@@ -581,10 +741,14 @@ EPUB_SINKS = ("text_parts", "_current_cell", "_title")
 def epub_data_stored(c):
     """rho = None: the datum is appended to exactly one text sink (running text, current table cell, title)."""
     ch = changes(c, skip_fields(EPUB, ECLS, c.ex.module.repo))
+    if len(ch) == 0:
+        return c.args["data"].t == z3.StringVal("")        # nothing stored is right for the empty datum only
     if len(ch) != 1:
         return z3.BoolVal(False)
     ref, k, a, b = ch[0]
     d0 = c.entry.obj(c.args["self"].ref).data
+    if not all(f in d0 for f in EPUB_SINKS):
+        raise Unsupported(f"text sinks of {ECLS} not recognised: {[f for f in EPUB_SINKS if f not in d0]}")
     data = c.args["data"].t
     if ref == c.args["self"].ref:
         if k in EPUB_SINKS and isinstance(a, VStr) and isinstance(b, VStr):
@@ -654,11 +818,14 @@ def contracts(reg):
         params=[("self", html_self())] + GHOST,
         requires=html_requires,
         ensures=[("returns-the-root-the-handlers-fill", lambda c: z3.BoolVal(
-                    isinstance(c.result, VRef) and c.result.ref == c.entry.obj(c.args["self"].ref).data["root"].ref)),
+                    isinstance(c.result, VRef) and c.result.ref == c.entry.obj(c.args["self"].ref).data[need(HTML, HCLS, c.ex.module.repo, "root")["root"]].ref)),
                  ("pure", lambda c: frame(c, ()))],
         modifies=("self",),
     ))
     out.append(looks_like_html_contract())
+    from contracts import C17_glue
+    C17_glue.install(reg)
+    out.extend(C17_glue.contracts())
     return out
 
 
@@ -720,11 +887,12 @@ def looks_like_html_contract():
     return FnContract(
         target=f"{MSG}::_looks_like_html",
         params=[("text", P_STR)],
-        requires=req,
+        hyps=req,              # ground facts about the empty string (PY-STR / PY-RE), assumed -- not a precondition on callers
         ensures=[("hint-element-anywhere-in-the-body-is-recognised", imp(lambda c: HINT(c.args["text"].t))),
                  ("html-or-body-tag-anywhere-in-the-body-is-recognised",
                   imp(lambda c: z3.Or(STR_HAS(nb(c), z3.StringVal("<html")), STR_HAS(nb(c), z3.StringVal("<body"))))),
                  ("leading-doctype-is-recognised", imp(lambda c: STR_STARTS(nb(c), z3.StringVal("<!doctype"))))],
+        result_maker=lambda ex, st, ctx: VBool(_G.LLH(ctx.args["text"].t)) if isinstance(ctx.args.get("text"), VStr) else VBool(z3.Bool(fresh_name("llh"))),
         note="recognition of an HTML body does not depend on where in the body the evidence stands",
     )
 
@@ -737,6 +905,18 @@ def post_report(c, rep):
             if o["status"] == "refuted":
                 o["status"] = "unknown"
                 o["reason"] = "solver model interprets the uninterpreted regex / lstrip / lower functions: not a refutation by itself; " + (o.get("reason") or "")
+    if ("::" + HCLS + ".") in c.target or ("::" + ECLS + ".") in c.target:
+        # handler contracts: a refutation is definite only when no unmodelled call (EXC-ANY / havoc) was met on the way
+        if getattr(rep, "exc_any_sites", 0):
+            for o in rep.obligations:
+                if o["status"] == "refuted":
+                    o["status"] = "unknown"
+                    o["reason"] = f"{rep.exc_any_sites} unmodelled call(s) were over-approximated in this function: not a definite refutation; " + (o.get("reason") or "")
+    if c.target in _G.TARGETS:
+        for o in rep.obligations:
+            if o["status"] == "refuted":
+                o["status"] = "unknown"
+                o["reason"] = "failed over the abstract parser / container model (havoc of unmodelled calls): not a refutation by itself; " + (o.get("reason") or "")
 
 
 # --------------------------------------------------------------------- lemmas --
@@ -789,22 +969,71 @@ def policy(repo, tier):
     mh, ms = loader.module(MHTML, repo), loader.module(MSG, repo)
 
     def lit(m, name):
-        try:
-            v = m.assigns[name]
-            if isinstance(v, ast.Call) and dotted(v.func) in ("frozenset", "set") and len(v.args) == 1:
-                v = v.args[0]
-            return set(ast.literal_eval(v))
-        except (KeyError, ValueError, SyntaxError, TypeError):
+        """Value of a module-level table of strings, however it is written (set / frozenset / tuple literal, union, ...):
+        the module-level initialiser is evaluated by the engine.  None = no such name or not a constant collection."""
+        from pyvc.contracts import Registry as _Reg
+        from pyvc.exctypes import Universe as _Uni
+        from pyvc.values import VSetC as _VSetC
+        if name not in m.assigns:
             return None
-    hr, er, hv = lit(h, "REMOVE_TAGS"), lit(e, "REMOVE_TAGS"), lit(h, "_VOID_TAGS")
-    G("C17/html_extractor.py::REMOVE_TAGS/module-invariant#equals-the-removable-set-of-the-statement", hr == set(SPEC_REMOVE), f"{sorted(hr or [])}")
-    G("C17/epub_extractor.py::REMOVE_TAGS/module-invariant#equals-the-removable-set-of-the-statement", er == set(SPEC_REMOVE), f"{sorted(er or [])}")
-    G("C17/html_extractor.py::_VOID_TAGS/module-invariant#void-and-removable-agree-with-HTML", hv is not None and hv & SPEC_REMOVE == SPEC_VOID & SPEC_REMOVE,
+        try:
+            ex = Executor(m, _Reg(), _Uni(repo))
+            ex.sinks.append([])
+            v = ex.module_const(name)
+            items = list(v.items) if isinstance(v, (_VSetC, VTuple)) else None
+            if items is None:
+                return None
+            vals = [x.const() if isinstance(x, VStr) else x for x in items]
+            return set(vals) if all(isinstance(x, str) for x in vals) else None
+        except Exception:  # noqa
+            return None
+
+    def T(oid, table, ok, why):
+        """A table invariant: decided (ground) when the table could be evaluated, `unknown` when the name / shape is not
+        recognised (the handler proofs read the real tables themselves, so nothing is lost)."""
+        if table is None:
+            obls.append(ground_obligation(oid, False, "table not found under this name / not a constant collection of strings",
+                                          "tables", kind="module-invariant", backend="ground", definite=False))
+        else:
+            G(oid, ok, why)
+    def tables_of(m, cls):
+        """Module-level string tables the start-tag handler (and private helpers of the class it calls) refers to, by name."""
+        seen, todo, names = set(), [f"{cls}.handle_starttag"], []
+        while todo:
+            q = todo.pop()
+            fn_ = m.functions.get(q)
+            if fn_ is None or q in seen:
+                continue
+            seen.add(q)
+            for n in ast.walk(fn_):
+                if isinstance(n, ast.Name) and isinstance(n.ctx, ast.Load) and n.id in m.assigns and n.id not in names:
+                    names.append(n.id)
+                if isinstance(n, ast.Attribute) and isinstance(n.value, ast.Name) and n.value.id in ("self", cls):
+                    todo.append(f"{cls}.{n.attr}")
+        return {n: lit(m, n) for n in names if lit(m, n) is not None}
+
+    def by_role(m, cls):
+        """(remove table, void table): by the conventional name when present, else by role among the tables the handler uses:
+        the remove table is the one that contains `script`; the void table is the other one that contains `embed` / `br`."""
+        tabs = tables_of(m, cls)
+        rm = lit(m, "REMOVE_TAGS")
+        if rm is None:
+            c_ = [v for v in tabs.values() if "script" in v]
+            rm = c_[0] if len(c_) == 1 else None
+        vd = lit(m, "_VOID_TAGS")
+        if vd is None:
+            c_ = [v for v in tabs.values() if "script" not in v and "div" not in v and ("embed" in v or "br" in v)]
+            vd = c_[0] if len(c_) == 1 else None
+        return rm, vd
+    (hr, hv), (er, _ev) = by_role(h, HCLS), by_role(e, ECLS)
+    T("C17/html_extractor.py::REMOVE_TAGS/module-invariant#equals-the-removable-set-of-the-statement", hr, hr == set(SPEC_REMOVE), f"{sorted(hr or [])}")
+    T("C17/epub_extractor.py::REMOVE_TAGS/module-invariant#equals-the-removable-set-of-the-statement", er, er == set(SPEC_REMOVE), f"{sorted(er or [])}")
+    T("C17/html_extractor.py::_VOID_TAGS/module-invariant#void-and-removable-agree-with-HTML", hv, hv is not None and hv & SPEC_REMOVE == SPEC_VOID & SPEC_REMOVE,
       f"{sorted((hv or set()) & SPEC_REMOVE)} vs {sorted(SPEC_VOID & SPEC_REMOVE)}")
-    G("C17/html_extractor.py::_VOID_TAGS/module-invariant#only-HTML-void-elements", hv is not None and hv <= SPEC_VOID and {"img", "br", "input", "param", "source"} <= hv,
+    T("C17/html_extractor.py::_VOID_TAGS/module-invariant#only-HTML-void-elements", hv, hv is not None and hv <= SPEC_VOID and {"img", "br", "input", "param", "source"} <= hv,
       f"extra={sorted((hv or set()) - SPEC_VOID)}")
     bad = [t for s_ in (hr, er, hv) if s_ for t in s_ if t != t.lower() or not t.isalnum()]
-    G("C17/html+epub::tables/module-invariant#entries-lowercase-names", not bad and hr and er and hv, str(bad))
+    T("C17/html+epub::tables/module-invariant#entries-lowercase-names", None if (hr is None or er is None or hv is None) else True, not bad, str(bad))
 
     # the parser classes override only callbacks that are under contract; everything else html.parser
     # delivers (comments for EPUB, declarations, processing instructions, CDATA sections) hits the inherited no-op
@@ -818,97 +1047,29 @@ def policy(repo, tier):
         over = sorted(n.name for n in (node.body if node else []) if isinstance(n, ast.FunctionDef) and n.name in callbacks - under)
         P(f"C17/{short}::{cls}/call-site#only-contracted-parser-callbacks-overridden", ok and not over, f"base ok={ok}; overrides outside the contracts: {over}")
         init = m.functions.get(f"{cls}.__init__")
-        sup = [c_ for c_ in _calls(init) if ast.unparse(c_.func) == "super().__init__"] if init else []
+        sup = [c_ for c_ in _calls(init) if ast.unparse(c_.func) in ("super().__init__", "HTMLParser.__init__", f"super({cls}, self).__init__")] if init else []
         kw = {k.arg: ast.unparse(k.value) for c_ in sup for k in c_.keywords}
+        # convert_charrefs defaults to True (Python >= 3.5); no __init__ at all inherits that default
         P(f"C17/{short}::{cls}.__init__/call-site#charrefs-converted-so-text-arrives-only-through-handle_data",
-          len(sup) == 1 and kw.get("convert_charrefs") == "True", f"super().__init__ keywords: {kw}")
+          (init is None or len(sup) == 1) and kw.get("convert_charrefs", "True") == "True"
+          and not any(len(c_.args) > (1 if ast.unparse(c_.func) == "HTMLParser.__init__" else 0) for c_ in sup), f"base __init__ keywords: {kw}")
         if init is not None:
             fns.append(dict(m.fn_info(f"{cls}.__init__"), obligations=1))
 
-    # reuse sites --------------------------------------------------------------------------------
-    def builder_use(m, qual, cls, origin, feed_arg=None):
-        """`p = cls(); p.feed(x)` in function `qual`, cls bound to `origin`; returns (ok, detail, var)."""
-        fn = m.functions.get(qual)
-        if fn is None:
-            return False, f"{qual} missing", None
-        if origin is not None and m.imports.get(cls) != origin:
-            return False, f"{cls} imported from {m.imports.get(cls)}", None
-        if origin is None and cls not in m.classes:
-            return False, f"{cls} not defined here", None
-        news = [n for n in ast.walk(fn) if isinstance(n, ast.Assign) and isinstance(n.value, ast.Call) and dotted(n.value.func) == cls
-                and len(n.targets) == 1 and isinstance(n.targets[0], ast.Name)]
-        if len(news) != 1:
-            return False, f"{len(news)} constructions of {cls}", None
-        var = news[0].targets[0].id
-        feeds = [c_ for c_ in _calls(fn) if dotted(c_.func) == f"{var}.feed"]
-        stores = [n for n in ast.walk(fn) if isinstance(n, ast.Name) and n.id == var and isinstance(n.ctx, ast.Store)]
-        ok = len(feeds) == 1 and len(stores) == 1 and len(feeds[0].args) == 1
-        # The assumed tokenizer contract (DESIGN Appendix B) is that of feed(): an unterminated construct at the end of the
-        # input (e.g. `<!-- ...` without `-->`) stays buffered.  close() flushes such a remainder through handle_data, i.e.
-        # comment content would arrive as visible text -- a definite violation of the assumption, reported as such.
-        closes = [c_ for c_ in _calls(fn) if dotted(c_.func) in (f"{var}.close", f"{var}.goahead")]
-        if closes:
-            obls.append(ground_obligation(f"C17/{m.rel.split('/')[-1]}::{qual}/call-site#parser-is-fed-but-never-closed-(unterminated-markup-stays-hidden)",
-                                          False, f"line {closes[0].lineno}: {ast.unparse(closes[0])} flushes an unterminated comment / declaration as text", m.rel))
-        else:
-            obls.append(ground_obligation(f"C17/{m.rel.split('/')[-1]}::{qual}/call-site#parser-is-fed-but-never-closed-(unterminated-markup-stays-hidden)",
-                                          True, "", m.rel))
-        return ok, f"{var} = {cls}(); {len(feeds)} feed call(s)", var
-
-    ok, why, var = builder_use(h, "read_html", HCLS, None)
-    if ok:
-        fn = h.functions["read_html"]
-        trees = [n for n in ast.walk(fn) if isinstance(n, ast.Assign) and isinstance(n.value, ast.Call) and dotted(n.value.func) == f"{var}.get_tree"]
-        ext = [c_ for c_ in _calls(fn) if dotted(c_.func) == "_HtmlTextExtractor"]
-        ok = len(trees) == 1 and len(ext) == 1 and len(ext[0].args) == 1 and ast.unparse(ext[0].args[0]) == ast.unparse(trees[0].targets[0])
-        why += f"; tree -> _HtmlTextExtractor: {ok}"
-        fns.append(dict(h.fn_info("read_html"), obligations=1))
-    P("C17/html_extractor.py::read_html/call-site#text-comes-from-the-tree-the-contracted-builder-fills", ok, why)
-
-    ok, why, var = builder_use(ms, "_html_to_text", HCLS, "sharepoint2text.parsing.extractors.html_extractor._HtmlTreeBuilder")
-    if ok:
-        fn = ms.functions["_html_to_text"]
-        trees = [n for n in ast.walk(fn) if isinstance(n, ast.Assign) and isinstance(n.value, ast.Call) and dotted(n.value.func) == f"{var}.get_tree"]
-        ext = [c_ for c_ in _calls(fn) if dotted(c_.func) == "_HtmlTextExtractor"]
-        ok = len(trees) == 1 and len(ext) == 1 and len(ext[0].args) == 1 and ast.unparse(ext[0].args[0]) == ast.unparse(trees[0].targets[0]) \
-            and ms.imports.get("_HtmlTextExtractor") == "sharepoint2text.parsing.extractors.html_extractor._HtmlTextExtractor"
-        why += f"; tree -> html_extractor._HtmlTextExtractor: {ok}"
-        fns.append(dict(ms.fn_info("_html_to_text"), obligations=1))
-    P("C17/msg_email_extractor.py::_html_to_text/call-site#mail-body-goes-through-the-same-builder", ok, why)
-
-    fn = mh.functions.get("read_mhtml")
-    ok, why = False, "read_mhtml missing"
-    if fn is not None:
-        loops = [n for n in ast.walk(fn) if isinstance(n, ast.For) and isinstance(n.iter, ast.Call) and dotted(n.iter.func) == "read_html"]
-        ys = [n for n in ast.walk(fn) if isinstance(n, ast.Yield)]
-        in_loop = [y for y in ys if any(y in list(ast.walk(l)) for l in loops)]
-        other = [y for y in ys if y not in in_loop]
-        ok = mh.imports.get("read_html") == "sharepoint2text.parsing.extractors.html_extractor.read_html" and len(loops) == 1 \
-            and isinstance(loops[0].target, ast.Name) and in_loop and all(isinstance(y.value, ast.Name) and y.value.id == loops[0].target.id for y in in_loop) \
-            and all(isinstance(y.value, ast.Call) and dotted(y.value.func) == "HtmlContent" and
-                    {k.arg: ast.unparse(k.value) for k in y.value.keywords}.get("content") == "''" for y in other)
-        why = f"{len(loops)} read_html loop(s), {len(in_loop)} pass-through yield(s), {len(other)} empty-content yield(s)"
-        fns.append(dict(mh.fn_info("read_mhtml"), obligations=1))
-    P("C17/mhtml_extractor.py::read_mhtml/call-site#yields-exactly-what-read_html-yields", ok, why)
-
-    ok, why, var = builder_use(e, "_extract_chapter", ECLS, None)
-    if ok:
-        fn = e.functions["_extract_chapter"]
-        texts = [n for n in ast.walk(fn) if isinstance(n, ast.Assign) and isinstance(n.value, ast.Call) and dotted(n.value.func) == f"{var}.get_text"]
-        ok = len(texts) == 1
-        if ok:
-            tv = ast.unparse(texts[0].targets[0])
-            kws = [k for c_ in _calls(fn) if dotted(c_.func) == "EpubChapter" for k in c_.keywords if k.arg == "text"]
-            ok = len(kws) == 1 and ast.unparse(kws[0].value) == tv
-        why += f"; chapter text = parser.get_text(): {ok}"
-        fns.append(dict(e.fn_info("_extract_chapter"), obligations=1))
-    P("C17/epub_extractor.py::_extract_chapter/call-site#chapter-text-comes-from-the-contracted-extractor", ok, why)
-
+    # reuse sites: read_html, msg._html_to_text, read_mhtml and epub._extract_chapter are under symbolic contracts
+    # (contracts/C17_glue.py) since round 3 -- the former shape checks broke on helper extraction / import style.
     # get_text only reads what handle_data/handle_*tag stored (joins text_parts)
     gt = e.functions.get(f"{ECLS}.get_text")
-    ok = gt is not None and not [n for n in ast.walk(gt) if isinstance(n, ast.Attribute) and isinstance(n.ctx, ast.Store)] \
-        and any(ast.unparse(n) == "''.join(self.text_parts)" for n in ast.walk(gt))
-    P("C17/epub_extractor.py::_XhtmlTextExtractor.get_text/call-site#text-is-the-join-of-stored-parts", ok, "")
+    # dataflow form: get_text stores nothing, and the only state it reads is the list of stored parts
+    if gt is not None:
+        reads = sorted({n.attr for n in ast.walk(gt) if isinstance(n, ast.Attribute) and isinstance(n.value, ast.Name) and n.value.id == "self"
+                        and isinstance(n.ctx, ast.Load)})
+        stores = [n for n in ast.walk(gt) if isinstance(n, (ast.Attribute, ast.Subscript)) and isinstance(n.ctx, (ast.Store, ast.Del))
+                  and any(isinstance(x, ast.Name) and x.id == "self" for x in ast.walk(n))]
+        ok, why = reads == ["text_parts"] and not stores, f"reads self.{reads}, {len(stores)} store(s) through self"
+    else:
+        ok, why = False, "get_text missing"
+    P("C17/epub_extractor.py::_XhtmlTextExtractor.get_text/call-site#text-is-the-join-of-stored-parts", ok, why)
     return {"obligations": obls, "functions": fns}
 
 
